@@ -1,6 +1,7 @@
 import DustVerif.Proofs.RtpsSys2
 import DustVerif.Proofs.RtpsNoPanic
 import DustVerif.Proofs.RtpsFuel
+import DustVerif.Props.C02
 /-! Property C01: reliable delivery — every sample arrives exactly once, in order, payload intact, none skipped,
     despite any finite pattern of datagram loss, duplication, reordering and delay.
     Model: `Model/Rtps.lean` (write_message_reliable, on_acknack / on_nack_frag_submessage_received,
@@ -67,6 +68,18 @@ example :
          .deliver 0, .deliver 0, .deliver 0, .deliver 0, .deliver 0, .deliver 0, .deliver 0] with
       | .ok s => s.r.cache
       | .panic => []) = [⟨1, [1]⟩, ⟨2, List.range 20⟩] := by decide
+
+/-- **C01_forged_hb_no_duplicate** (the "exactly once" clause against the one submessage kind the adversary of
+    `C01_in_order_once` does not forge): in every reachable state of the RELIABLE pair a HEARTBEAT of any content followed
+    by a copy of the DATA of any delivered sample leaves the delivered list unchanged. (A forged `first` can make a
+    reliable reader skip samples — that is forgery of the writer's identity, outside C01; see C06.) -/
+theorem C01_forged_hb_no_duplicate (cfg : Cfg) (hfix : cfg.fixD43 = true) (tl : Bool) (f : Nat) (hf : 1 ≤ f) (hf16 : f < 65536)
+    (steps : List Step) (hsteps : ∀ st, st ∈ steps → StepOK st) (s : Sys)
+    (hrun : Sys.run cfg (Sys.init true tl f) steps = .ok s)
+    (first last count : Nat) (fin lv : Bool) (r' : Reader) (out : List Dgram)
+    (h : s.r.onHb cfg first last count fin lv = .ok (r', out)) :
+    r'.cache = s.r.cache ∧ ∀ c, c ∈ s.r.cache → ∀ payload, (r'.onData c.sn payload).cache = r'.cache :=
+  C02_forged_hb_no_duplicate cfg hfix true tl f hf hf16 steps hsteps s hrun first last count fin lv r' out h
 
 /-- as-is (D2): a GAP for a removed change moves `highest_received_change_sn` past an earlier change the writer still
     holds: history {1,3}, late reliable reader, DATA 1 lost once — sample 3 is delivered, sample 1 never is, and the
